@@ -110,7 +110,7 @@ def build(run):
 def run(run, replay=None):
     from units.C11 import vunit, cex as _cex
     tier = run.tier if hasattr(run, 'tier') else 'quick'
-    run.fallbacks.append(("operator expressions parsed by the real parser", lambda: _cex.find(run, tier=tier)))
+    run.explorations.append(("operator expressions parsed by the real parser", lambda: _cex.find(run, tier=tier)))
     vu = vunit.build(run)
     vres = vu.run(rlimit=80)
     run.add_verus(vu, vres, cex_finder=lambda f: _cex.find(run, f, tier=tier))
